@@ -4,7 +4,7 @@ package probe
 // Run:  mkdir /tmp/r && cd /tmp/r && cp <this file> replay_test.go &&
 //       sed 's#@REPO@#/repo#' /verif/harness/go.mod.in | sed 's/module verifharness/module probe/' > go.mod &&
 //       cp /repo/go.sum . && GOFLAGS=-mod=mod GOPROXY=off go test ./...
-// Both tests FAIL on the unchanged tree (that is the finding) and pass with notes/proposed_fix_C13.patch.
+// Both tests FAILED before the repairs 842abdd (Network.Flush) and 1a387d5 (FastModularNetworkSolver.Flush) and PASS now.
 
 import (
 	"testing"
